@@ -75,7 +75,7 @@ type crashFS struct {
 	idsUsed     map[uint64]string
 	dupID       string
 	faultsFired map[string]int
-	maxCreate   uint64 // Create of a larger file fails with ENOSPC (0 = no limit)
+	maxCreate   uint64         // Create of a larger file fails with ENOSPC (0 = no limit)
 	events      map[string]int // coverage counters
 	// fault modes; in force only while a counted fault is armed (faultIn >= 0):
 	failDeletes  bool // every file deletion fails, the file stays
